@@ -39,6 +39,10 @@ def export_image(text):
     return export_loaded(pre, loader.get_code(), loader.get_routines()), ''
 
 
+# operands the Machine dereferences (machine.py): an instruction without one of them is malformed
+NEEDS = {'POP': (0,), 'PUSH': (0,), 'MOVE': (0, 1), 'MOVEQ': (1,), 'JSR': (0,), 'JUMP': (0, 1), 'PARAM': (0,), 'OP': (0,)}
+
+
 def export_loaded(pre, post, routines):
     from bardolph.controller.routine import RuntimeRoutine
     from bardolph.vm.vm_codes import OpCode, Operand
@@ -58,7 +62,8 @@ def export_loaded(pre, post, routines):
                 a = getattr(inst.param0, 'name', str(inst.param0))
             elif inst.op_code is OpCode.END:
                 a = 'MATRIX' if inst.param0 is Operand.MATRIX else str(inst.param0)
-            out.append({'op': op, 'a': a, 'n': n})
+            need = NEEDS.get(op, ())
+            out.append({'op': op, 'a': a, 'n': n, 'm': sum(1 for k in need if getattr(inst, 'param%d' % k, None) is None)})
         return out
 
     def segments(code):
